@@ -87,6 +87,14 @@ func (r *chunkReader) Write(p []byte) (int, error) { return len(p), nil }
 func (r *chunkReader) Close() error                { r.closed = true; return nil }
 
 func c07Message(size int, fill byte) []byte {
+	switch size {
+	case -5: // top-level text string of 5 bytes: 8 + 5 + 3 bytes of padding
+		return ttlv.MarshalTTLV(ttlv.Value{Tag: 0x420094, Value: "hello"})
+	case -9: // top-level byte string of 9 bytes: 8 + 9 + 7 bytes of padding
+		return ttlv.MarshalTTLV(ttlv.Value{Tag: 0x420043, Value: bytes.Repeat([]byte{fill}, 9)})
+	case -4: // top-level integer: 8 + 4 + 4
+		return ttlv.MarshalTTLV(ttlv.Value{Tag: 0x42002A, Value: int32(fill)})
+	}
 	// a structure of exactly `size` bytes: header + one byte string child (or empty structure for 8)
 	if size == 8 {
 		return ttlv.MarshalTTLV(ttlv.Value{Tag: 0x420069, Value: ttlv.Struct{}})
@@ -150,12 +158,12 @@ func c07Run(c *vlib.Check, msgs [][]byte, cutAt int, r *chunkReader, desc func()
 }
 
 func runC07(c *vlib.Check) {
-	sizes := []int{8, 16, 24, 520, 1032}
+	sizes := []int{8, 16, 24, 520, 1032, -5, -9, -4} // negative: top-level non-structure items whose value is padded
 	maxSeq, maxDev, segL := 3, 2, 16
 	if c.Thorough() {
 		maxSeq, maxDev, segL = 3, 3, 24
 	}
-	c.Rule = fmt.Sprintf("explicit-state search over transport answers: message sequences of length <=%d over sizes {8,16,24,520,1032}; every Read(p) is answered with a size from {len(p),1,2,7,8,len(p)-1} "+
+	c.Rule = fmt.Sprintf("explicit-state search over transport answers: message sequences of length <=%d over sizes {8,16,24,520,1032} and top-level padded scalars (5-byte text, 9-byte byte string, integer); every Read(p) is answered with a size from {len(p),1,2,7,8,len(p)-1} "+
 		"(deviation = any answer other than len(p), bound %d, iterated); all 2^(L-1) segmentations of every stream of L<=%d bytes; truncation of every stream at every offset (with full reads and with 1-byte reads); "+
 		"announced lengths {limit-8, limit, limit+8, 2^31, 2^32-1} against limits {64, 1 MiB}. Reference model: split the byte stream at the announced padded lengths. "+
 		"states = distinct (stream, answer sequence) pairs, transitions = Recv calls", maxSeq, maxDev, segL)
@@ -216,6 +224,9 @@ func runC07(c *vlib.Check) {
 	for _, q := range seqs {
 		t := 0
 		for _, s := range q {
+			if s < 0 {
+				s = map[int]int{-5: 16, -9: 24, -4: 16}[s]
+			}
 			t += s
 		}
 		if t <= segL {
